@@ -42,10 +42,11 @@ var errNotFound = errors.New("file does not exist")
 
 // Sched is the schedule half of a case: everything the scheduler consumes.
 type Sched struct {
-	Tape     []uint16 `json:"tape"`
-	Disabled []string `json:"disabled,omitempty"`
-	Victim   string   `json:"victim,omitempty"`
-	PCT      *sim.PCT `json:"pct,omitempty"` // priority strategy instead of the tape
+	Tape     []uint16  `json:"tape"`
+	Disabled []string  `json:"disabled,omitempty"`
+	Victim   string    `json:"victim,omitempty"`
+	PCT      *sim.PCT  `json:"pct,omitempty"`  // priority strategy instead of the tape
+	Tail     *sim.Tail `json:"tail,omitempty"` // pseudo-random continuation beyond the tape
 }
 
 // CompileRun is the configuration of one Compile call.
@@ -195,6 +196,7 @@ func bubbleCfg(sc *Sched, budget int) sim.BubbleConfig {
 		MaxSteps:   budget,
 		WakePoints: compileWake,
 		PCT:        sc.PCT,
+		Tail:       sc.Tail,
 	}
 }
 
